@@ -1182,3 +1182,48 @@ impl ResultsWriter {{
                        body, body, ['write_row_start / write_row_item / write_row_end -> recording stubs; dyn Write -> marker trait'],
                        'the formatter calls behind write_row_item (verified per formatter under C09.*.cell), write! to the real writer')
     return dict(functions=[r], dropped=[d])
+
+
+# --------------------------------------------------------------------------------------------------
+# parse_datetime(): precision -> [start, finish] time of day (C13) and range rejection (C10)
+# --------------------------------------------------------------------------------------------------
+def unit_dateprecision(inj, scratch):
+    frag_begin(inj)
+    s = src('src/util/datetime.rs', scratch)
+    it = s.fn('parse_datetime')
+    span = s.body_span(it)
+    m1 = s.find_one(r'let\s+hour_start\s*:\s*u32\s*;', span, what='parse_datetime: let hour_start: u32;')
+    m2 = s.find_one(r'match\s+Local\.with_ymd_and_hms\(', span, what='parse_datetime: match Local.with_ymd_and_hms(')
+    if not m1.start() < m2.start():
+        raise AnchorLost('parse_datetime: time-of-day block is not in front of the calendar conversion')
+    t = dedent(s.text[m1.start():m2.start()].rstrip())
+    if re.search(r'\b(year|month|day|Local|date)\b', s.mask[m1.start():m2.start()]):
+        raise AnchorLost('parse_datetime: time-of-day block mentions the calendar date')
+    # which variables feed start / finish: with_hour(hour_start) .. with_second(sec_finish)
+    tail = re.sub(r'\s+', '', s.mask[m2.start():it['close']])
+    uses = re.findall(r'\.with_(hour|minute|second)\((\w+)\)', tail)
+    expect = [('hour', 'hour_start'), ('minute', 'min_start'), ('second', 'sec_start'), ('hour', 'hour_finish'), ('minute', 'min_finish'), ('second', 'sec_finish')]
+    if uses[:6] != expect:
+        raise AnchorLost(f'parse_datetime: start / finish are not built from (hour,min,sec)_start / _finish in that order: {uses[:6]}')
+    text = f'''pub mod dateprecision {{
+use super::*;
+// shims for the regex captures: a capture group is either absent or the number it spells
+#[derive(Clone, Copy)] pub struct SVal(pub u32);
+#[derive(Clone, Copy)] pub struct SStr(pub u32);
+impl SVal {{ pub fn as_str(&self) -> SStr {{ SStr(self.0) }} }}
+impl SStr {{ pub fn parse(&self) -> Result<u32, ()> {{ Ok(self.0) }} }}
+pub struct SCap {{ pub g6: Option<SVal>, pub g7: Option<SVal>, pub g8: Option<SVal> }}
+impl SCap {{ pub fn get(&self, i: usize) -> Option<SVal> {{ match i {{ 6 => self.g6, 7 => self.g7, 8 => self.g8, _ => None }} }} }}
+pub fn frag_time_of_day(cap: &SCap, s: &str) -> Result<(u32, u32, u32, u32, u32, u32), String> {{
+    {t}
+    Ok((hour_start, min_start, sec_start, hour_finish, min_finish, sec_finish))
+}}
+{H('frag_dateprecision.kani.rs')}
+}}
+'''
+    inj.new_file(FRAG_FILE, text)
+    r, d = frag_record('frag_time_of_day', 'src/util/datetime.rs', 'fn parse_datetime / statements from `let hour_start: u32;` up to `match Local.with_ymd_and_hms(..)` (verbatim); the use of the six variables in with_hour/with_minute/with_second is checked by shape',
+                       t, t, ['regex Captures -> shim whose groups 6,7,8 are absent or spell a number (str::parse on them succeeds: the regex only captures digits)'],
+                       'DATE_REGEX matching, year/month/day, chrono calendar conversion, today/yesterday/offset literals')
+    return dict(functions=[r], dropped=[d],
+                assumptions=['chrono: with_hour(h)/with_minute(m)/with_second(s) return Some exactly for h < 24, m < 60, s < 60', 'DATE_REGEX groups 6-8 capture 1-2 digits, so parsing them as u32 cannot fail'])
